@@ -241,7 +241,7 @@ class ExprGen:
 STYLES = ["item", "item", "attr", "mgr"]
 
 DEFAULT_WEIGHTS = {"setv": 30, "sete": 30, "inpl": 12, "unreg": 6, "setc": 5,
-                   "regf": 4, "unregf": 2, "regk": 3, "unregk": 1}
+                   "regf": 4, "unregf": 2, "regk": 3, "unregk": 1, "setfunc": 2}
 
 
 def swarm_config(rng, tier="quick", **over):
@@ -294,7 +294,8 @@ class HistoryGen:
     def propose(self):
         rng, spec, m = self.rng, self.spec, self.model
         kind = self._wpick(self.cfg["weights"])
-        free = [l for l in spec.leaves if l not in m.ft_target and l not in m.kn_target]
+        free = [l for l in spec.leaves if l not in m.kn_target and
+                (l not in m.ft_target or (m.ft_target[l][1] == 0 and m.ftasks[m.ft_target[l][0]].get("reftid")))]
         if kind == "setv":
             p = rng.choice(free)
             return ("setv", p, gen_value(rng, spec.leaf_type[p]), rng.choice(STYLES))
@@ -345,7 +346,8 @@ class HistoryGen:
             coefs = tuple(tuple(rng.choice([0.5, 1.0, 2.0, -1.0, 0.25]) for _ in range(nd)) + (rng.choice([0.0, 1.0, -0.5]),)
                           for _ in range(nt))
             self.tcount += 1
-            return ("regf", "t%d%s" % (self.tcount, self.cfg["salt"]), deps, targets, coefs)
+            # a task id is any hashable: usually a string, sometimes the reference of the (first) target
+            return ("regf", "t%d%s" % (self.tcount, self.cfg["salt"]), deps, targets, coefs, rng.random() < 0.3)
         if kind == "unregf":
             if not m.ftasks:
                 return None
@@ -369,6 +371,11 @@ class HistoryGen:
             if not m.knobs:
                 return None
             return ("unregk", rng.choice(list(m.knobs)))
+        if kind == "setfunc":
+            if not spec.funcs:
+                return None
+            slot = rng.choice(["add3", "lin", "mix"])
+            return ("setfunc", slot, rng.choice([slot, slot + "b"]))
         if kind == "load":
             n = rng.randint(1, 3)
             pairs = []
@@ -377,6 +384,10 @@ class HistoryGen:
             keep, self.eg.no_eqne = self.eg.no_eqne, not self.cfg.get("eqne_in_text", False)
             for p in rng.sample(free, min(n, len(free))):
                 pairs.append((p, self.eg.gen(spec.leaf_type[p], min(2, self.cfg["expr_depth"]), True)))
+            if pairs and rng.random() < 0.3:
+                # the same target a second time in one load (the later entry replaces the earlier one, or is skipped)
+                p = rng.choice(pairs)[0]
+                pairs.insert(rng.randint(0, len(pairs)), (p, self.eg.gen(spec.leaf_type[p], 1, True)))
             self.eg.no_eqne = keep
             return ("load", tuple(pairs), rng.random() < 0.7)
         if kind in ("refresh", "cleanup", "verify"):
